@@ -264,7 +264,7 @@ func c13AbstractObject(o map[string]any) string {
 	if key == nil {
 		return fmt.Sprintf("?key-%s-%s-%s", kind, ns, name)
 	}
-	return fmt.Sprintf("%d/%s/%s", key.id, b01(c13Resolvable(av, kind)), c13RootTok(key.kind, o))
+	return fmt.Sprintf("%d/%s/%s", key.id, c13B01(c13Resolvable(av, kind)), c13RootTok(key.kind, o))
 }
 
 func c13RootTok(k *c13Kind, o map[string]any) string {
@@ -294,7 +294,7 @@ func c13RootTok(k *c13Kind, o map[string]any) string {
 	return strings.Join(ps, "+")
 }
 
-func b01(b bool) string {
+func c13B01(b bool) string {
 	if b {
 		return "1"
 	}
@@ -313,7 +313,7 @@ func c13SubID(s string) string {
 func c13AbstractOp(info objectpatch.VerifOpInfo) string {
 	switch info.Type {
 	case "create":
-		fl := b01(info.IgnoreIfExists) + b01(info.UpdateIfExists)
+		fl := c13B01(info.IgnoreIfExists) + c13B01(info.UpdateIfExists)
 		if info.Subresource != "" {
 			fl += "?sub"
 		}
@@ -350,7 +350,7 @@ func c13AbstractOp(info objectpatch.VerifOpInfo) string {
 			body = c13AbstractPatch(kd, c13KindByName(info.Kind), info.Patch)
 		}
 		return fmt.Sprintf("P/%s/%s/%s/%s%s/%s", kd, c13Coord(info), c13SubID(info.Subresource),
-			b01(info.IgnoreMissingObject), b01(info.IgnoreHookError), body)
+			c13B01(info.IgnoreMissingObject), c13B01(info.IgnoreHookError), body)
 	}
 	return info.Type
 }
@@ -360,7 +360,7 @@ func c13Coord(info objectpatch.VerifOpInfo) string {
 	if key == nil {
 		return fmt.Sprintf("?key-%s-%s-%s/?", info.Kind, info.Namespace, info.Name)
 	}
-	return fmt.Sprintf("%d/%s", key.id, b01(c13Resolvable(info.ApiVersion, info.Kind)))
+	return fmt.Sprintf("%d/%s", key.id, c13B01(c13Resolvable(info.ApiVersion, info.Kind)))
 }
 
 func c13AbstractPatch(kd string, k *c13Kind, p any) string {
@@ -641,7 +641,7 @@ func c13Handle(data []byte, init map[int]c13Obj) (obs c13ExecObs) {
 	lg := cl.actionLog()
 	c := cl.contents()
 	return c13ExecObs{
-		ans:      fmt.Sprintf("done fail=%s nerr=%d panic=0 log=%s cluster=%s", b01(err != nil), nerr, lg, c),
+		ans:      fmt.Sprintf("done fail=%s nerr=%d panic=0 log=%s cluster=%s", c13B01(err != nil), nerr, lg, c),
 		executed: true, fail: err != nil, log: lg, cluster: c,
 	}
 }
@@ -750,7 +750,7 @@ func (g *c13Gen) genCreate() c13Doc {
 	mf := c13Manifest(key, av, o)
 	d := c13Doc{valid: true, family: "create:" + mode}
 	gvr := c13Resolvable(av, key.kind.name)
-	desc := fmt.Sprintf("C/%s/%d/%s/%s", fl, key.id, b01(gvr), c13ObjTok(key.kind, o))
+	desc := fmt.Sprintf("C/%s/%d/%s/%s", fl, key.id, c13B01(gvr), c13ObjTok(key.kind, o))
 	switch r := rng.Intn(100); {
 	case r < 60:
 		d.inline = true
@@ -798,7 +798,7 @@ func (g *c13Gen) genDelete() c13Doc {
 		m["subresource"] = "status" // accepted by the schema, not used by delete operations
 	}
 	return c13Doc{m: m, valid: true, inline: true, family: "delete:" + mode,
-		desc: fmt.Sprintf("D/%s/%d/%s/0", p, key.id, b01(gvr))}
+		desc: fmt.Sprintf("D/%s/%d/%s/0", p, key.id, c13B01(gvr))}
 }
 
 func (g *c13Gen) genPatch() c13Doc {
@@ -934,7 +934,7 @@ func (g *c13Gen) genPatch() c13Doc {
 	if body == "none" {
 		d.family += ":badbody"
 	}
-	d.desc = fmt.Sprintf("P/%s/%d/%s/%d/%s%s/%s", kd, key.id, b01(gvr), subID, b01(im), b01(ihe), body)
+	d.desc = fmt.Sprintf("P/%s/%d/%s/%d/%s%s/%s", kd, key.id, c13B01(gvr), subID, c13B01(im), c13B01(ihe), body)
 	return d
 }
 
@@ -1036,14 +1036,14 @@ func c13Init(rng *Rng, hot []*c13Key) (map[int]c13Obj, string) {
 
 func c13RunCase(c *Case, rng *Rng, init map[int]c13Obj, initTok string, docs []c13Doc, garbled bool) {
 	c.Op("init "+initTok, "cluster="+initTok)
-	c.Op("garbled "+b01(garbled), "ok")
+	c.Op("garbled "+c13B01(garbled), "ok")
 	for _, d := range docs {
 		x := ""
 		if d.extra {
 			x = " x"
 			c.Known = "unknown-keys-ignored"
 		}
-		c.Op(fmt.Sprintf("doc %s %s %s%s", b01(d.valid), b01(d.inline), d.desc, x), "ok")
+		c.Op(fmt.Sprintf("doc %s %s %s%s", c13B01(d.valid), c13B01(d.inline), d.desc, x), "ok")
 	}
 	renderings := map[string][]byte{
 		"json": c13RenderJSON(docs, garbled, rng),
@@ -1055,10 +1055,10 @@ func c13RunCase(c *Case, rng *Rng, init map[int]c13Obj, initTok string, docs []c
 		c.Op("note "+form+" rendering: "+string(data), "ok")
 		pans, ptok, perr := c13Parse(data)
 		c.Op("parse "+form, pans)
-		c.Oracle(fmt.Sprintf("parse form=%s err=%s ops=%s", form, b01(perr), ptok))
+		c.Oracle(fmt.Sprintf("parse form=%s err=%s ops=%s", form, c13B01(perr), ptok))
 		obs := c13Handle(data, init)
 		c.Op("exec "+form, obs.ans)
-		c.Oracle(fmt.Sprintf("exec form=%s executed=%s fail=%s log=%s cluster=%s", form, b01(obs.executed), b01(obs.fail), obs.log, obs.cluster))
+		c.Oracle(fmt.Sprintf("exec form=%s executed=%s fail=%s log=%s cluster=%s", form, c13B01(obs.executed), c13B01(obs.fail), obs.log, obs.cluster))
 		sig[form] = strings.ReplaceAll(pans+"|"+obs.ans, " ", ",")
 	}
 	c.Oracle(fmt.Sprintf("agree json=%s yaml=%s", sig["json"], sig["yaml"]))
